@@ -9,6 +9,9 @@ CLAIMED = {
  "C01": ("exploration", "exhaustive enumeration of lattice operand pairs x 5 operations against a point-membership oracle on the arrangement of the input edges",
          "Every ordered pair of closed contours from the named lattice families (all vertex tuples incl. degenerate/collinear/self-crossing, rectilinear shapes with holes in all orientations, coarse snap grids, translated copies, Path and Paths entry points) is run through And/Or/Xor/Not/DivideBy on the real code; the filled region of each result is compared with the Boolean combination at probes on both sides of every piece of the input-edge arrangement. Complete within the lattices; says nothing beyond them.",
          "trusted: internal/oracle (winding, distance, arrangement probes), Go toolchain; assumes delta=1e-6 (2*eps on coarse grids) is a fair reading of 'not within the snap-grid tolerance of a boundary'", "DESIGN.md §3 C01"),
+ "C02": ("exploration", "exhaustive enumeration of lattice paths x 4 fill rules against a winding-number oracle on the arrangement of the input edges, plus canonical-form and idempotence checks",
+         "Every path of the named lattice families (all vertex tuples incl. degenerate/self-crossing up to pentagons/hexagons, two-contour combinations, rectilinear outer+inner+bar arrangements in all orientations, coarse snap grids, open subpaths) x 4 fill rules is settled by the real code; region equality, winding in {0,1}, absence of proper crossings among output segments and idempotence are checked on every case. Complete within the lattices.",
+         "trusted: internal/oracle; delta=1e-6 (2*eps on coarse grids); one known finding (open subpaths are kept open) is keyed by the predicate 'input has an open subpath'", "DESIGN.md §3 C02"),
 }
 REASON_PENDING = "check not built yet in this session (planned in DESIGN.md §9); not claimed until it exists and is green"
 
